@@ -8,7 +8,7 @@ EXTENDS Source, SettingsPool, Json, SequencesExt
 
 CONSTANTS FAMILY, ALLSETTINGS, WITHPROG
 
-Cases == CASE FAMILY = "G1a_1" -> G1a_1(0) [] FAMILY = "G1a_2" -> G1a_2(0) [] FAMILY = "G1b" -> G1b(0) [] FAMILY = "G1b_s" -> G1bK("struct") [] FAMILY = "G1b_e" -> G1bK("enum") [] FAMILY = "G1c" -> G1c(0) [] FAMILY = "G1d" -> G1d(0) [] FAMILY = "G1e" -> G1e(0) [] FAMILY = "G1f" -> G1f(0)
+Cases == CASE FAMILY = "G1a_1" -> G1a_1(0) [] FAMILY = "G1a_2" -> G1a_2(0) [] FAMILY = "G1b" -> G1b(0) [] FAMILY = "G1b_s" -> G1bK("struct") [] FAMILY = "G1b_e" -> G1bK("enum") [] FAMILY = "G1c" -> G1c(0) [] FAMILY = "G1d" -> G1d(0) [] FAMILY = "G1e" -> G1e(0) [] FAMILY = "G1f" -> G1f(0) [] FAMILY = "G1g" -> G1g(0)
          [] FAMILY = "G2p_2" -> G2p_2(0) [] FAMILY = "G2p_3" -> G2p_3(0) [] FAMILY = "G2s" -> G2Shapes(0) [] FAMILY = "G2p_3s" -> G2p_3s(0) [] FAMILY = "G7" -> G7(0) [] FAMILY = "G8" -> G8(0) [] FAMILY = "G8b" -> G8b(0) [] FAMILY = "H1" -> H1(0) [] FAMILY = "G2d" -> G2Digits(0)
 
 VARIABLES c, S, reg, gst
